@@ -248,6 +248,8 @@ def execute(plan_or_trace, lib_by_id, refs, rundir, rng=None, neutralise=None):
                         N.Species.add_known_elements(list(ev["elements"]))
                     elif ev["what"] == "set_pseudo":
                         N.Species.set_known_pseudoelements(list(ev["elements"]))
+                    elif ev["what"] == "add_pseudo":
+                        N.Species.add_known_pseudoelements(list(ev["elements"]))
                     elif ev["what"] == "reset":
                         N.Species.reset()
                     elif ev["what"] == "bare_species":
@@ -439,7 +441,7 @@ def draw_event(rng, tr, live, last, sessions):
     if kinds["clock"] and r < 0.12:
         return {"e": "clock", "seconds": rng.choice(CLOCK_JUMPS)}
     if kinds["foreign"] and r < 0.22:
-        what = rng.choice(["set_elements", "add_elements", "set_pseudo", "reset", "bare_species"])
+        what = rng.choice(["set_elements", "add_elements", "set_pseudo", "add_pseudo", "reset", "bare_species"])
         ev = {"e": "foreign", "what": what}
         if what != "reset":
             ev["elements"] = rng.choice(FOREIGN_LISTS)
